@@ -157,7 +157,10 @@ func (f *pFacts) derive(cond ssa.Value, taken bool) {
 				f.nonnil[pkey(ta)+"#0"] = true
 			}
 			if lk, ok := c.Tuple.(*ssa.Lookup); ok && lk.CommaOk {
-				f.nonnil["present:"+pkey(lk)] = true
+				// a present key of a map into which only non-nil pointers are ever stored
+				if mapValsNonNil != nil && mapValsNonNil(lk.X.Type()) {
+					f.nonnil[pkey(lk)+"#0"] = true
+				}
 			}
 		}
 	case *ssa.BinOp:
@@ -498,6 +501,10 @@ func (pa *PanicAudit) nilable(v ssa.Value) (bool, string) {
 		}
 	case *ssa.Lookup:
 		if _, ok := x.Type().Underlying().(*types.Pointer); ok {
+			// a key enumerated from the same map, whose stored values are never nil, is present
+			if !x.CommaOk && keyFromSameMap(x) && mapValsNonNil != nil && mapValsNonNil(x.X.Type()) {
+				return false, ""
+			}
 			return true, "map lookup"
 		}
 	case *ssa.Extract:
@@ -818,6 +825,7 @@ func (pa *PanicAudit) computeRetFacts(fn *ssa.Function, depth int) []string {
 
 // Run analyses all reachable functions, iterating call-site preconditions to a fixpoint.
 func (pa *PanicAudit) Run() {
+	pa.buildMapValsNonNil()
 	for round := 0; round < 5; round++ {
 		pa.sites = map[pSiteKey]*pSite{}
 		changed := false
@@ -994,6 +1002,26 @@ func (pa *PanicAudit) analyse(f *ssa.Function) (changed bool) {
 			}
 		}
 		kind, needs := pa.needsOf(in)
+		// a possibly-nil pointer (map lookup, may-nil result, singular message field) handed to a
+		// callee that dereferences the parameter
+		if ci, ok := in.(ssa.CallInstruction); ok {
+			if g := staticCallee(ci.Common()); g != nil && len(g.Blocks) > 0 && strings.HasPrefix(pkgPathOf(g), modPath) {
+				for i, a := range ci.Common().Args {
+					if i >= len(g.Params) {
+						break
+					}
+					if _, isPtr := a.Type().Underlying().(*types.Pointer); !isPtr {
+						continue
+					}
+					nl, why := pa.nilable(a)
+					if !nl || !derefsParam(g, i) {
+						continue
+					}
+					kind = "nil dereference in callee (" + why + " passed to " + fnName(g) + ")"
+					needs = append(needs, pNeed{Kind: "nonnil", Key: pkey(a)})
+				}
+			}
+		}
 		if len(needs) == 0 {
 			return
 		}
@@ -1121,4 +1149,297 @@ func (pa *PanicAudit) Report(rule string) (total, unguarded int) {
 		c.Bad(rule, fnName(s.Fn), construct, pos, fmt.Sprintf("unguarded on %d of %d paths; decisions on one such path: %s", s.Unguarded, s.Guarded+s.Unguarded, s.Witness))
 	}
 	return
+}
+
+var derefsParamMemo = map[*ssa.Parameter]bool{}
+
+// derefsParam: does g read or write through its i-th (pointer) parameter
+// without first comparing it with nil?  (Generated nil-safe getters and
+// methods that start with `if x == nil` do not count.)
+func derefsParam(g *ssa.Function, i int) bool {
+	p := g.Params[i]
+	if v, ok := derefsParamMemo[p]; ok {
+		return v
+	}
+	// the parameter and the loads of the cell it is spilled into (captured parameters)
+	vals := []ssa.Value{p}
+	if p.Referrers() != nil {
+		for _, r := range *p.Referrers() {
+			st, ok := r.(*ssa.Store)
+			if !ok || st.Val != ssa.Value(p) {
+				continue
+			}
+			al, ok := st.Addr.(*ssa.Alloc)
+			if !ok || singleStore(al) != ssa.Value(p) {
+				continue
+			}
+			var cells []ssa.Value
+			cells = append(cells, al)
+			for _, h := range withAnon(g) {
+				for _, fv := range h.FreeVars {
+					if b := bindingOf(fv); b == ssa.Value(al) {
+						cells = append(cells, fv)
+					}
+				}
+			}
+			for _, cell := range cells {
+				if cell.Referrers() == nil {
+					continue
+				}
+				for _, cr := range *cell.Referrers() {
+					if u, ok := cr.(*ssa.UnOp); ok && u.Op == token.MUL {
+						vals = append(vals, u)
+					}
+				}
+			}
+		}
+	}
+	res := false
+	nilTested := false
+	for _, v := range vals {
+		if v.Referrers() == nil {
+			continue
+		}
+		for _, r := range *v.Referrers() {
+			switch x := r.(type) {
+			case *ssa.BinOp:
+				if (x.Op == token.EQL || x.Op == token.NEQ) && (isNilConst(x.X) || isNilConst(x.Y)) {
+					nilTested = true
+				}
+			case *ssa.FieldAddr:
+				res = true
+			case *ssa.UnOp:
+				if x.Op == token.MUL && v == ssa.Value(p) {
+					res = true
+				}
+				if x.Op == token.MUL && v != ssa.Value(p) {
+					if _, isStruct := x.Type().Underlying().(*types.Struct); isStruct {
+						res = true
+					}
+				}
+			}
+		}
+	}
+	res = res && !nilTested
+	derefsParamMemo[p] = res
+	return res
+}
+
+// mapValsNonNil reports whether every value stored (anywhere in the module's
+// non-test code) into maps of the given type is a non-nil pointer by
+// provenance (a fresh allocation or the result of a function that never
+// returns nil).  Set by NewPanicAudit.
+var mapValsNonNil func(t types.Type) bool
+
+func (pa *PanicAudit) buildMapValsNonNil() {
+	memo := map[string]bool{}
+	mapValsNonNil = func(t types.Type) bool {
+		key := types.TypeString(t, nil)
+		if v, ok := memo[key]; ok {
+			return v
+		}
+		res := true
+		mapValsInProgress[key] = true
+		defer delete(mapValsInProgress, key)
+		for _, mp := range pa.P.ModPkgs() {
+			for _, f := range pa.P.PkgFuncs(strings.TrimPrefix(mp, modPath+"/")) {
+				if pa.P.InTestFile(f) {
+					continue
+				}
+				instrs(f, func(in ssa.Instruction) {
+					mu, ok := in.(*ssa.MapUpdate)
+					if !ok || types.TypeString(mu.Map.Type(), nil) != key {
+						return
+					}
+					if !pa.nonNilByProvenance(mu.Value, 0) {
+						res = false
+					}
+				})
+			}
+		}
+		memo[key] = res
+		return res
+	}
+}
+
+func (pa *PanicAudit) nonNilByProvenance(v ssa.Value, d int) bool {
+	if d > 6 {
+		return false
+	}
+	switch x := v.(type) {
+	case *ssa.Alloc:
+		return true
+	case *ssa.Call:
+		if f := staticCallee(&x.Call); f != nil && len(f.Blocks) > 0 {
+			if _, isPtr := x.Type().Underlying().(*types.Pointer); isPtr {
+				return !pa.mayNil[f] && !mayReturnNil(f) && returnsOnlyFresh(f, d+1, pa)
+			}
+		}
+	case *ssa.Phi:
+		for _, e := range x.Edges {
+			if !pa.nonNilByProvenance(e, d+1) {
+				return false
+			}
+		}
+		return len(x.Edges) > 0
+	case *ssa.ChangeType:
+		return pa.nonNilByProvenance(x.X, d+1)
+	case *ssa.Extract:
+		// value of a range over a map of the same element type (a copy of such a map): by induction
+		if nx, ok := x.Tuple.(*ssa.Next); ok && x.Index == 2 {
+			if rg, ok := nx.Iter.(*ssa.Range); ok {
+				if _, isMap := rg.X.Type().Underlying().(*types.Map); isMap && mapValsNonNil != nil {
+					return mapValsNonNilInd(rg.X.Type())
+				}
+			}
+		}
+	}
+	return false
+}
+
+// mapValsNonNilInd: inductive use of the invariant while it is being established
+// (copying values between maps of one type preserves it).
+var mapValsInProgress = map[string]bool{}
+
+func mapValsNonNilInd(t types.Type) bool {
+	key := types.TypeString(t, nil)
+	if mapValsInProgress[key] {
+		return true
+	}
+	return mapValsNonNil(t)
+}
+
+func returnsOnlyFresh(f *ssa.Function, d int, pa *PanicAudit) bool {
+	ok := true
+	instrs(f, func(in ssa.Instruction) {
+		if ret, isRet := in.(*ssa.Return); isRet && len(ret.Results) == 1 {
+			if !pa.nonNilByProvenance(ret.Results[0], d) {
+				ok = false
+			}
+		}
+	})
+	return ok
+}
+
+// keyFromSameMap: the key of the lookup m[k] was enumerated from m itself:
+// k is the key variable of `range m`, or an element of a slice that is filled
+// with the keys of `range m` (possibly sorted) in the same function, or of a
+// slice returned by a same-package helper that is given m and does the same
+// with its parameter.
+func keyFromSameMap(lk *ssa.Lookup) bool {
+	m := pkey(lk.X)
+	return keyEnumerates(lk.Index, m, lk.Parent(), 0)
+}
+
+func keyEnumerates(k ssa.Value, m string, fn *ssa.Function, d int) bool {
+	if d > 8 {
+		return false
+	}
+	switch x := k.(type) {
+	case *ssa.Extract:
+		if nx, ok := x.Tuple.(*ssa.Next); ok && x.Index == 1 {
+			if rg, ok := nx.Iter.(*ssa.Range); ok {
+				return pkey(rg.X) == m
+			}
+		}
+	case *ssa.UnOp:
+		if ia, ok := x.X.(*ssa.IndexAddr); ok && x.Op == token.MUL {
+			return sliceOfKeys(ia.X, m, fn, map[ssa.Value]bool{}, d+1)
+		}
+	case *ssa.Phi:
+		for _, e := range x.Edges {
+			if !keyEnumerates(e, m, fn, d+1) {
+				return false
+			}
+		}
+		return len(x.Edges) > 0
+	}
+	return false
+}
+
+// sliceOfKeys: every element ever appended to s is a key enumerated from map m.
+func sliceOfKeys(s ssa.Value, m string, fn *ssa.Function, seen map[ssa.Value]bool, d int) bool {
+	if seen[s] {
+		return true
+	}
+	seen[s] = true
+	if d > 12 {
+		return false
+	}
+	switch x := s.(type) {
+	case *ssa.Phi:
+		for _, e := range x.Edges {
+			if !sliceOfKeys(e, m, fn, seen, d+1) {
+				return false
+			}
+		}
+		return len(x.Edges) > 0
+	case *ssa.MakeSlice:
+		// make([]string, 0, n): empty
+		if k, ok := constInt(x.Len); ok && k == 0 {
+			return true
+		}
+	case *ssa.Const:
+		return x.Value == nil
+	case *ssa.Call:
+		if ac, ok := isAppend(x); ok && len(ac.Call.Args) == 2 {
+			if !sliceOfKeys(ac.Call.Args[0], m, fn, seen, d+1) {
+				return false
+			}
+			// appended values: a one-element varargs literal holding a range key of m
+			els, ok := literalElems(ac.Call.Args[1])
+			if !ok {
+				return false
+			}
+			for _, e := range els {
+				if !keyEnumerates(e, m, fn, d+1) {
+					return false
+				}
+			}
+			return true
+		}
+		// helper(m) returning the keys of its parameter
+		if g := staticCallee(&x.Call); g != nil && g.Pkg == fn.Pkg && len(g.Blocks) > 0 {
+			for i, a := range x.Call.Args {
+				if pkey(a) != m || i >= len(g.Params) {
+					continue
+				}
+				ok := true
+				n := 0
+				instrs(g, func(in ssa.Instruction) {
+					if ret, isRet := in.(*ssa.Return); isRet && len(ret.Results) == 1 {
+						n++
+						if !sliceOfKeys(ret.Results[0], pkey(g.Params[i]), g, map[ssa.Value]bool{}, d+1) {
+							ok = false
+						}
+					}
+				})
+				return ok && n > 0
+			}
+		}
+	}
+	return false
+}
+
+// literalElems: the values stored into a varargs / slice literal.
+func literalElems(v ssa.Value) ([]ssa.Value, bool) {
+	sl, ok := v.(*ssa.Slice)
+	if !ok {
+		return nil, false
+	}
+	al, ok := sl.X.(*ssa.Alloc)
+	if !ok {
+		return nil, false
+	}
+	var out []ssa.Value
+	for _, r := range *al.Referrers() {
+		if ia, ok := r.(*ssa.IndexAddr); ok {
+			for _, rr := range *ia.Referrers() {
+				if st, ok := rr.(*ssa.Store); ok {
+					out = append(out, st.Val)
+				}
+			}
+		}
+	}
+	return out, len(out) > 0
 }
